@@ -524,10 +524,13 @@ func findCalls(fn *ssa.Function, full string) []*ssa.Call {
 	return out
 }
 
+// extractOf returns the idx-th result of a multi-result call if it is extracted and used at all.
 func extractOf(call *ssa.Call, idx int) ssa.Value {
 	for _, ref := range *call.Referrers() {
 		if ex, ok := ref.(*ssa.Extract); ok && ex.Index == idx {
-			return ex
+			if rs := ex.Referrers(); rs != nil && len(*rs) > 0 {
+				return ex
+			}
 		}
 	}
 	return nil
